@@ -598,10 +598,12 @@ def prim_case(draw):
         rx = draw(st.sampled_from([1.0, 2.0, 5.0, 10.0, 20.0]))
         ry = draw(st.sampled_from([rx, rx, rx / 2, rx / 3, rx / 10, rx / 20]))
         inner = draw(st.sampled_from([0.0, 0.0, 0.5, 0.8]))
+        # the inner ellipse may be elongated differently from (even across) the outer one
+        inner_y = inner if (inner == 0.0 or draw(st.booleans())) else draw(st.sampled_from([0.1, 0.5, 0.9]))
         mode = draw(st.sampled_from(["full", "full", "slice", "slice"]))
         a0 = draw(st.sampled_from([0.0, 0.5, -1.0, math.pi / 2, 3.0]))
         a1 = a0 if mode == "full" else a0 + draw(st.sampled_from([0.1745, 0.5, 1.0, math.pi / 2, math.pi, 4.0, -0.3, -2.0]))
-        return {"kind": "prim", "prim": k, "c": c, "rx": rx, "ry": ry, "irx": rx * inner, "iry": ry * inner, "a0": a0, "a1": a1, "tol": tol}
+        return {"kind": "prim", "prim": k, "c": c, "rx": rx, "ry": ry, "irx": rx * inner, "iry": ry * inner_y, "a0": a0, "a1": a1, "tol": tol}
     if k == "racetrack":
         r = draw(st.sampled_from([1.0, 3.0, 10.0]))
         return {"kind": "prim", "prim": k, "c": c, "L": draw(st.sampled_from([0.0, 2.0, 15.0])), "r": r, "ir": r * draw(st.sampled_from([0.0, 0.5])),
